@@ -255,7 +255,8 @@ def run_check(pid, tier, seed, workers=None, budget=None, max_runs=None, digests
             print("HARNESS-ERROR " + h.replace("\n", " | ")[:1500])
         if rc == 0:
             rc = 2
-    write_evidence(pid, tier, seed, agg, wall, len(reported), workers, prop)
+    if not os.environ.get("MGSIM_NO_EVIDENCE"):
+        write_evidence(pid, tier, seed, agg, wall, len(reported), workers, prop)
     if not quiet:
         rate = agg["runs"] / wall * 3600 if wall > 0 else 0
         print(
